@@ -44,6 +44,10 @@ fn uhid(d: u64) -> u64 { 100 + 10 * d + 1 } // counterparty commitment with our 
 fn shid(d: u64) -> u64 { 100 + 10 * d + 2 } // sweep of our to_remote output of UH
 fn thid(d: u64) -> u64 { 100 + 10 * d + 3 } // our claim of the HTLC output of UH (with the preimage)
 fn vhid(d: u64) -> u64 { 100 + 10 * d + 4 } // spend of the claim's output
+fn upid(d: u64) -> u64 { 100 + 10 * d + 5 } // the counterparty's PREVIOUS, not yet revoked commitment (number 6) with an HTLC we offered that is not in 7
+fn spid(d: u64) -> u64 { 100 + 10 * d + 6 } // sweep of our to_remote output of UP
+fn tpid(d: u64) -> u64 { 100 + 10 * d + 7 } // our timeout claim of the HTLC output of UP
+fn vpid(d: u64) -> u64 { 100 + 10 * d + 8 } // spend of that claim's output
 fn uid(d: u64) -> u64 { 10 * d + 4 }
 fn sid(d: u64) -> u64 { 10 * d + 5 }
 fn tid(d: u64) -> u64 { 10 * d + 6 } // spend of the HTLC output of U_d
@@ -161,11 +165,19 @@ impl W15 {
             let in_hash = PaymentHash(lightning_signer::bitcoin::hashes::sha256::Hash::hash(&preimage).to_byte_array());
             let cp_offered = vec![HTLCInfo2 { value_sat: 20_000 + d, payment_hash: in_hash, cltv_expiry: 120 }];
             let (uh_to_holder, uh_to_cp) = (1_300_000u64 + d, 1_650_000u64);
+            let prev_point = lightning_signer::util::test_utils::key::make_test_pubkey(14);
+            let we_offered_prev = vec![HTLCInfo2 { value_sat: 50_000 + d, payment_hash: PaymentHash([0x20 + d as u8; 32]), cltv_expiry: 130 }];
+            let (up_to_holder, up_to_cp) = (1_400_000u64 + d, 1_500_000u64);
             let persister = self.persister.clone();
             let node_id = self.node.get_id();
             self.node.with_channel(&id, |chan| {
                 chan.set_next_holder_commit_num_for_testing(commit_num + 1);
+                // the counterparty has signed 6 (previous, not yet revoked) and 7 (current), with different HTLC sets
+                chan.set_next_counterparty_commit_num_for_testing(commit_num, prev_point);
                 chan.set_next_counterparty_commit_num_for_testing(commit_num + 1, cp_point);
+                chan.set_next_counterparty_revoke_num_for_testing(commit_num - 1);
+                chan.enforcement_state.previous_counterparty_commit_info =
+                    Some(CommitmentInfo2::new(true, up_to_holder, up_to_cp, vec![], we_offered_prev.clone(), feerate));
                 chan.enforcement_state.current_holder_commit_info =
                     Some(CommitmentInfo2::new(false, to_cp, to_holder, offered.clone(), vec![], feerate));
                 // the counterparty's current commitment carries one HTLC it offered to us
@@ -222,6 +234,20 @@ impl W15 {
             let sh = mk_tx(vec![OutPoint::new(uh.compute_txid(), uh_our)], 1, 270 + d as u32);
             let th = mk_tx(vec![OutPoint::new(uh.compute_txid(), uh_h)], 1, 280 + d as u32);
             let vh = mk_tx(vec![OutPoint::new(th.compute_txid(), 0)], 1, 290 + d as u32);
+            // the counterparty's previous commitment 6 with the HTLC that exists only there
+            let oic_prev = lightning_signer::channel::Channel::htlcs_info2_to_oic(&vec![], &we_offered_prev);
+            let up = self.node.with_channel(&id, |chan| Ok(chan.make_counterparty_commitment_tx(&prev_point, commit_num - 1, feerate, up_to_holder, up_to_cp, oic_prev.clone())))
+                .unwrap().trust().built_transaction().transaction.clone();
+            let up_our = up.output.iter().position(|o| o.value.to_sat() == up_to_holder).unwrap() as u32;
+            let up_h = up.output.iter().position(|o| o.value.to_sat() == 50_000 + d).unwrap() as u32;
+            self.kinds.insert(upid(d), format!("c{}/{}", up_our, up_h));
+            let sp = mk_tx(vec![OutPoint::new(up.compute_txid(), up_our)], 1, 300 + d as u32);
+            let tp = mk_tx(vec![OutPoint::new(up.compute_txid(), up_h)], 1, 310 + d as u32);
+            let vp = mk_tx(vec![OutPoint::new(tp.compute_txid(), 0)], 1, 320 + d as u32);
+            self.put(upid(d), up);
+            self.put(spid(d), sp);
+            self.put(tpid(d), tp);
+            self.put(vpid(d), vp);
             self.put(uhid(d), uh);
             self.put(shid(d), sh);
             self.put(thid(d), th);
@@ -338,7 +364,11 @@ impl W15 {
                 _ => match (depth(uhid(d)), depth(shid(d)), depth(thid(d)), depth(vhid(d))) {
                     // counterparty commitment with an HTLC the node can claim: to_remote, the HTLC claim and its output
                     (Some(a), Some(b), Some(c), Some(e)) => Some(a.min(b).min(c).min(e)),
-                    _ => None,
+                    // the counterparty's previous commitment: to_remote, our claim of the HTLC we offered, its output
+                    _ => match (depth(upid(d)), depth(spid(d)), depth(tpid(d)), depth(vpid(d))) {
+                        (Some(a), Some(b), Some(c), Some(e)) => Some(a.min(b).min(c).min(e)),
+                        _ => None,
+                    },
                 },
             },
         };
@@ -361,7 +391,11 @@ impl W15 {
                 _ => match (depth(uhid(d)), depth(shid(d)), depth(thid(d)), depth(vhid(d))) {
                     // counterparty commitment with an HTLC the node can claim: to_remote, the HTLC claim and its output
                     (Some(a), Some(b), Some(c), Some(e)) => Some(a.min(b).min(c).min(e)),
-                    _ => None,
+                    // the counterparty's previous commitment: to_remote, our claim of the HTLC we offered, its output
+                    _ => match (depth(upid(d)), depth(spid(d)), depth(tpid(d)), depth(vpid(d))) {
+                        (Some(a), Some(b), Some(c), Some(e)) => Some(a.min(b).min(c).min(e)),
+                        _ => None,
+                    },
                 },
             },
         };
@@ -446,6 +480,9 @@ impl Group for C15 {
             mk("init|new 1|setup 1|restart|add 11|add 111|add 112|forget 1|addn 100|heartbeat|addn 3|heartbeat"),
             // the same fully swept (main output, HTLC claim, its output): pruned at depth 100
             mk("init|new 2|setup 2|restart|add 21|add 121|add 122 123|add 124|forget 2|addn 98|heartbeat|addn 1|heartbeat"),
+            // the counterparty closes with its PREVIOUS commitment, whose HTLC is not in the current one; only the main output is
+            // swept: must not be pruned; after the HTLC claim and its output are spent too: pruned at depth 100
+            mk("init|new 1|setup 1|add 11|add 115|add 116|forget 1|addn 100|heartbeat|addn 3|heartbeat|add 117|add 118|addn 98|heartbeat|addn 1|heartbeat"),
             // mutual close seen before a restart, reorg of the close after it (follower-built proofs), forget, burial: not pruned
             mk("init|new 1|setup 1|add 11|add 13|restart|remove 13|forget 1|addn 101|heartbeat|add 13|addn 99|heartbeat"),
             // unilateral close, swept later; double spend on another channel
@@ -502,31 +539,32 @@ impl Group for C15 {
             let forget_early = rng.chance(1, 3);
             if forget_early { push(&mut w, &mut ops, format!("forget {}", d)); }
             push(&mut w, &mut ops, addl(&[fid(d)]));
-            let path = rng.below(6); // 0,1: counterparty commitment without HTLC; 2: counterparty commitment with an HTLC we can claim; else holder commitment
+            let path = rng.below(7); // 0,1: counterparty commitment without HTLC; 2: with an HTLC we can claim; 3: its PREVIOUS commitment; else holder commitment
             let cp_close = path <= 1;
-            let cp_htlc = path == 2;
+            let cp_htlc = path == 2 || path == 3;
+            let (c_u, c_s, c_t, c_v) = if path == 3 { (upid(d), spid(d), tpid(d), vpid(d)) } else { (uhid(d), shid(d), thid(d), vhid(d)) };
             let mut order = vec![sid(d), tid(d)];
             if rng.chance(1, 2) { order.swap(0, 1); }
             let pos = order.iter().position(|x| *x == tid(d)).unwrap() + 1 + rng.below((order.len() - order.iter().position(|x| *x == tid(d)).unwrap()) as u64) as usize;
             order.insert(pos.min(order.len()), vid(d));
             if cp_close { order = vec![scid(d)]; }
             if cp_htlc {
-                order = vec![shid(d), thid(d)];
+                order = vec![c_s, c_t];
                 if rng.chance(1, 2) { order.swap(0, 1); }
-                let p = order.iter().position(|x| *x == thid(d)).unwrap() + 1;
-                order.insert(if rng.chance(1, 2) { p } else { order.len() }, vhid(d));
+                let p = order.iter().position(|x| *x == c_t).unwrap() + 1;
+                order.insert(if rng.chance(1, 2) { p } else { order.len() }, c_v);
             }
             // a restart between set-up and the close: what the node knew (preimages, commitment infos) must survive it
             if rng.chance(1, 3) { push(&mut w, &mut ops, "restart".into()); }
-            let mut first = vec![if cp_close { ucid(d) } else if cp_htlc { uhid(d) } else { uid(d) }];
+            let mut first = vec![if cp_close { ucid(d) } else if cp_htlc { c_u } else { uid(d) }];
             if rng.chance(1, 3) { first.push(order.remove(0)); }
             push(&mut w, &mut ops, addl(&first));
             if cp_close && rng.chance(1, 3) { order.clear(); } // our output stays unswept: must never be pruned
-            if cp_htlc && rng.chance(1, 3) { order.retain(|x| *x == shid(d)); } // only the main output is swept, the HTLC is not: must never be pruned
+            if cp_htlc && rng.chance(1, 3) { order.retain(|x| *x == c_s); } // only the main output is swept, the HTLC is not: must never be pruned
             let mut sweep_blocks = 0u64;
             while !order.is_empty() {
                 if rng.chance(1, 4) { push(&mut w, &mut ops, "add".into()); sweep_blocks += 1; }
-                let k = if order.len() >= 2 && order[1] != vid(d) && order[1] != vhid(d) && rng.chance(1, 3) { 2 } else { 1 };
+                let k = if order.len() >= 2 && order[1] != vid(d) && order[1] != c_v && rng.chance(1, 3) { 2 } else { 1 };
                 let blk: Vec<u64> = order.drain(..k).collect();
                 push(&mut w, &mut ops, addl(&blk));
                 sweep_blocks += 1;
@@ -591,8 +629,11 @@ impl Group for C15 {
                         let mut cand = Vec::new();
                         if !has(fid(c)) && !has(did(c)) && !inb(&blk, did(c)) { cand.push(fid(c)); }
                         if !has(fid(c)) && !has(did(c)) && !inb(&blk, fid(c)) { cand.push(did(c)); }
-                        if (has(fid(c)) || inb(&blk, fid(c))) && !has(mid(c)) && !has(uid(c)) && !has(ucid(c)) && !has(uhid(c)) { cand.push(*rng.pick(&[mid(c), uid(c), ucid(c), uhid(c)])); }
+                        if (has(fid(c)) || inb(&blk, fid(c))) && !has(mid(c)) && !has(uid(c)) && !has(ucid(c)) && !has(uhid(c)) && !has(upid(c)) { cand.push(*rng.pick(&[mid(c), uid(c), ucid(c), uhid(c), upid(c)])); }
                         if has(ucid(c)) && !has(scid(c)) { cand.push(scid(c)); }
+                        if has(upid(c)) && !has(spid(c)) { cand.push(spid(c)); }
+                        if has(upid(c)) && !has(tpid(c)) { cand.push(tpid(c)); }
+                        if has(tpid(c)) && !has(vpid(c)) { cand.push(vpid(c)); }
                         if has(uhid(c)) && !has(shid(c)) { cand.push(shid(c)); }
                         if has(uhid(c)) && !has(thid(c)) { cand.push(thid(c)); }
                         if has(thid(c)) && !has(vhid(c)) { cand.push(vhid(c)); }
